@@ -1,7 +1,8 @@
 """C17 -- see DESIGN.md section 5.  Deductive targets are added below the bounded import."""
 PROP = "C17"
-LEVEL = "other"
-EXPLANATION = 'bounded stand-in: run histories on one application vs fresh ones, style construction orders, double renders'
+LEVEL = 'other'
+EXPLANATION = ('Deductive: HelpResolver.create_resolved_command restores the lenient-parsing setting of the resolved command on every exit, normal or exceptional.  Bounded: run histories on one application vs fresh ones, style construction orders, double renders, trace cache across I/O kinds.')
+LEVEL_NOTE = ('assumes: Command.parse does not modify the configuration; style factories, caches and end-to-end histories are bounded only')
 from . import resolver_contracts as rc
 TARGETS = [rc.M_HELP + ":HelpResolver.create_resolved_command"]
 LEMMAS = []
